@@ -50,7 +50,7 @@ ASSUMPTIONS = [
     "(the loader may add keys), include-in-reporting through Operation.include_in_reporting",
     "track plugins (track.py) and load-time processors (task filters, test mode) are out of scope here",
 ]
-BUDGET = {"quick": 1100, "thorough": 9000}
+BUDGET = {"quick": 1000, "thorough": 9000}
 WALL_BUDGET_S = {"quick": 80, "thorough": 1200}
 
 KNOWN_CORPUS_DEFAULT = "corpora/corpus-level-target-ignored-without-indices"
@@ -337,7 +337,11 @@ def apply_violation(doc, user_params, v, model):
     elif kind == "unused-track-param":
         user_params[["unused_param", "number_of_shardz", "p99"][a % 3]] = [1, "x", True][b % 3]
     elif kind == "reserved-track-param":
-        user_params[["now", "glob", "build_flavor", "serverless_operator"][a % 4]] = [1, "x", True][b % 3]
+        name = ["now", "glob", "build_flavor", "serverless_operator"][a % 4]
+        user_params[name] = [1, "x", True][b % 3]
+        if b % 2:
+            # the track itself uses Rally's variable of that name, as tracks do
+            return "{% set verif_uses_internal_variable = " + name + " %}"
     elif kind == "missing-operation":
         del leaf["operation"]
     elif kind == "missing-document-count":
@@ -410,13 +414,14 @@ def run_case(case, obs):
     v = case.get("violation")
     doc, files = T.to_doc(model)
     user_params = {}
+    prologue = ""
     if v:
-        apply_violation(doc, user_params, v, model)
+        prologue = apply_violation(doc, user_params, v, model) or ""
     _DIR["n"] += 1
     root = _DIR["root"] or tempfile.gettempdir()
     directory = tempfile.mkdtemp(prefix=f"case{_DIR['n']}-", dir=root)
     try:
-        r = T.render(doc, files, case["layout"], case["params"], directory)
+        r = T.render(doc, files, case["layout"], case["params"], directory, prologue=prologue)
         track_file, n_params, parts = r["track_file"], r["n_params"], r["parts"]
         user_params.update(r["user_params"])
         if v:
@@ -601,3 +606,10 @@ PROBES = {
         "selected": None, "violation": None,
     }
 }
+
+
+def evidence_extra():
+    return {
+        "exhaustive_subdomain": f"{len(KINDS)} violation kinds x 2 hand-written base tracks x 3 (thorough 16) positions x 2 layouts, plus the base tracks "
+        "themselves under 2 layouts (count: exhaustive_subdomain_cases)"
+    }
